@@ -10,7 +10,7 @@ def run(ctx):
     ok = ctx.coq_build([propfile, "Corr/Run_BgpAds.v"])
     ctx.coq_theorems(propfile, CLOSURE)
     n = 60 if ctx.tier == "quick" else 1500
-    state = {"stats": {}}
+    state = {"stats": {}, "ran": {}}
 
     def harness(n, seed, tag):
         recs, hok, log = ctx.go_harness("speaker", ["zz_verif_bgp_test.go"], "TestVerifBgpAds$", n=n, seed=seed, tag=tag)
@@ -19,6 +19,7 @@ def run(ctx):
             state["stats"][k] = state["stats"].get(k, 0) + v
         if not hok and not any("does not build" in c for c in ctx.corr_broken):
             ctx.corr_broken.append("harness TestVerifBgpAds failed: " + log[-1500:])
+        state["ran"]["ads"] = state["ran"].get("ads", True) and hok and bool(cases)
         return cases
 
     cases = harness(n, ctx.seed, "h")
@@ -31,6 +32,7 @@ def run(ctx):
             state["stats"][k] = state["stats"].get(k, 0) + v
         if not hok and not any("does not build" in c for c in ctx.corr_broken):
             ctx.corr_broken.append("harness TestVerifBgpSessParams failed: " + log[-1500:])
+        state["ran"]["sp"] = state["ran"].get("sp", True) and hok
 
     sessparams(6 if ctx.tier == "quick" else 100, ctx.seed, "sp")
 
@@ -51,6 +53,7 @@ def run(ctx):
                 state["stats"]["spk:" + r["k"]] = state["stats"].get("spk:" + r["k"], 0) + r["v"]
         if not hok and not any("does not build" in c for c in ctx.corr_broken):
             ctx.corr_broken.append("harness TestVerifSpk (whole-speaker part of C05) failed: " + log[-1500:])
+        state["ran"]["spk"] = state["ran"].get("spk", True) and hok
 
     whole_speaker(30 if ctx.tier == "quick" else 400, ctx.seed, "spk")
     mism = []
@@ -61,11 +64,17 @@ def run(ctx):
             ctx.corr_broken.append("model BgpAds.bstep and the real bgpController disagree (sessions' last Set or PeersForService) on history %d (%s): %s" %
                                    (m, byid.get(m, {}).get("kind"), json.dumps(byid.get(m, {}).get("in"))[:900]))
     st = state["stats"]
-    if cases:
-        for k in ("op_set", "op_del_announced", "op_cfg", "op_node", "oracle_nonempty_route_sets", "services_with_peers",
-                  "sessions_closed_by_node", "sessions_closed_by_cfg", "final_prefix_shared_by_services", "unchanged_peer_kept_checks",
-                  "whole_cfg", "whole_set", "whole_del", "whole_dual_stack_across_pools", "whole_expected_routes",
-                  "status_checks", "status_with_several_peers", "spk:stack_status_checks", "sessparams_checks", "sessparams_field:PasswordRef.Name", "sessparams_field:PasswordRef.Namespace", "sessparams_field:NodeSelectors"):
+    # degenerate-generator guards: counters computed from the INPUTS and the statement only (never from the code's answers);
+    # a part that did not run (build failure, harness failure: reported once above) is not "degenerate"
+    groups = [("ads", ("op_set", "op_del_announced", "op_cfg", "op_node", "gen_selected_peer_with_routes", "gen_service_intended_at_some_peer",
+                       "gen_service_intended_at_several_peers", "gen_peer_stops_by_node", "gen_peer_stops_by_cfg", "gen_cfg_keeps_running_peer_unchanged",
+                       "gen_cfg_changes_running_peer", "final_prefix_shared_by_services", "whole_cfg", "whole_set", "whole_del", "whole_dual_stack_across_pools", "whole_expected_routes")),
+              ("sp", ("gen_sessparams_selected_peers", "sessparams_field:PasswordRef.Name", "sessparams_field:PasswordRef.Namespace", "sessparams_field:NodeSelectors")),
+              ("spk", ("spk:stack_histories", "spk:stack_services_expected_over_bgp"))]
+    for part, keys in groups:
+        if not state["ran"].get(part):
+            continue
+        for k in keys:
             if st.get(k, 0) == 0:
                 raise vlib.Broken("generator degenerate: counter %r is zero: %r" % (k, st))
 
